@@ -32,6 +32,20 @@ checks = {
    text="Hostile YAML texts stored verbatim next to a neighbour entry and replayed in fresh simulated processes; Go values marshalled 50 times across restarts must give one text; invalid YAML must fail and write nothing. Exploration.", note=TB_A),
  "C19": dict(engine="A", technique="runtime monitor: lockstep standalone histories - file k holds exactly the formatted bytes, nothing else moves (digest), json.Valid for JSON", design="§5 C19",
    text="Standalone histories (1-12 calls, re-executions, names with %, unicode, arbitrary bytes incl. CR) over record/update/replay processes; per call the monitor checks outcome, that file k holds exactly the formatted bytes and that no other path was touched. Exploration.", note=TB_A),
+ "C05": dict(engine="B", technique="runtime monitor over real child processes: complete 1440-cell mode table with real CI/UPDATE_SNAPS environment, per-path directory-delta oracle (backdated mtimes) + Clean summary parser; strace as second witness (thorough)", design="§5 C05",
+   text="The finite mode table is swept completely on every run: 16 real test processes (CI x UPDATE_SNAPS x Sort set through the real environment) x 90 cells each; the literal table decides the expected outcome and the allowed per-path writes in the Match phase and in the Clean phase. Complete over the table, sampled over values/names.", note=TB_B),
+ "C07": dict(engine="B", technique="runtime monitor: event log of real go test processes + pre/post-Clean copies; offline checker that every addressed slot/file survives Clean unlisted; read-only follow-up process", design="§5 C07",
+   text="Hundreds of generated programs (nested subtests, fuzz seeds, custom files/dirs/exts, standalone) are recorded, polluted with stale items, then run with -count/-run/every Clean mode; the offline checker compares what the log says was addressed with what is on disk and in the summary after Clean. Exploration.", note=TB_B),
+ "C08": dict(engine="B", technique="runtime monitor: ownership map from a full recording run, real runner as oracle for what -run selects / what skipped, offline protection checker with witness-specific known-finding predicates", design="§5 C08",
+   text="Generated programs are run with random skip sets and -run patterns; entries/files of tests that did not run for one of the two stated reasons must survive Clean unlisted; converse clause for sibling prefixes. Four genuine, non-repairable design limitations are recorded as open findings with narrow predicates; anything else is a violation. Exploration.", note=TB_B),
+ "C09": dict(engine="B", technique="runtime monitor: stale-item oracle (event log + pre-Clean copy) vs Clean summary and post-Clean directory; decoy digest with backdated mtimes", design="§5 C09",
+   text="Stale entries/files and decoys are planted around recorded snapshots; after the judged process the reported lists must equal the stale set, removals must equal the lists iff clean mode off CI, everything else must be untouched. Exploration.", note=TB_B),
+ "C10": dict(engine="B", technique="runtime monitor: independent reader before/after Clean rewrites, natural-order comparator oracle, two-permutation metamorphic equality, second-Clean idempotence digest", design="§5 C10",
+   text="Each case runs two permutations of the same directory through Clean (prune/sort modes) twice; surviving entries must keep bodies, order must be natural and independent of the initial order, untouched files keep their mtime, the second Clean writes nothing. Exploration.", note=TB_B),
+ "C11": dict(engine="B", technique="runtime monitor: whole-tree creation digest of real programs vs the literal location function; failure-report footer resolution; launch from package dir / foreign dirs / -trimpath build", design="§5 C11",
+   text="Real packages (two depths, helpers in test/non-test files and a sub-package, closures, goroutines, odd subtest names) x option sets x five entry points x three launch modes; the set of created files must equal the location function's set and the report footer must resolve to the same file. Exploration.", note=TB_B),
+ "C20": dict(engine="B", technique="runtime monitor: exactly-once outcome classifier per call + conservation check between event-log tallies and Clean's printed totals/lists; -race builds in the thorough tier", design="§5 C20",
+   text="Real processes with mixed outcomes (changed values, new slots, Update options, skips, parallel subtests, calls from goroutines, -count) followed by Clean in every mode; each call must classify to exactly one outcome and the summary totals and obsolete lists must equal the log's tallies and the stale oracle. Exploration.", note=TB_B),
 }
 
 PENDING = {}
